@@ -237,7 +237,21 @@ func c09FactoryProbe(env *Env) {
 		"BeginString":            {"FIX.9.9", "", "FIXT.1.1"},
 		"SenderCompID":           {""},
 		"EnableLastMsgSeqNumProcessed": {"x"},
-		"ResetSeqTime":           {"25:00:00", "x"},
+		"ResetSeqTime":           {"25:00:00", "x", "12:00:00", "00:00:00"},
+		// well-formed values in unusual combinations (one half of a pair, a list without its times, ...)
+		"HeartBtIntOverride":     {"Y", "N", "x"},
+		"ResetOnLogout":          {"Y"},
+		"RefreshOnLogon":         {"Y"},
+		"DynamicSessions":        {"Y", "x"},
+		"EnableNextExpectedMsgSeqNum": {"Y", "x"},
+		"SocketUseSSL":           {"Y", "x"},
+		"FileLogPath":            {"", "/nonexistent/dir"},
+		"FileStorePath":          {"", "/nonexistent/dir"},
+		"SessionQualifier":      {"", "q q"},
+	}
+	// also well-formed values for the keys above that are normally given in pairs
+	for k, v := range map[string]string{"StartTime": "09:00:00", "EndTime": "17:00:00", "StartDay": "Monday", "EndDay": "Friday", "Weekdays": "Mon,Tue", "TimeZone": "America/New_York"} {
+		bad[k] = append(bad[k], v)
 	}
 	keys := make([]string, 0, len(bad))
 	for k := range bad {
